@@ -177,11 +177,16 @@ impl Rig {
     /// Open a client connection to the listener. `record`: what the kernel hook would have written for
     /// this connection (inserted for the source port before connecting); `port`: 0 = fresh port.
     pub fn open(&self, record: Option<verif_hooks::Entry>, port: u16) -> Result<Conn, String> {
-        let (fd, p) = rawhttp::bind_local(port)?;
-        if let Some(e) = record {
-            verif_hooks::insert(p, e);
-        }
-        let stream = rawhttp::connect_fd(fd, [127, 0, 0, 1], 3080)?;
-        Ok(Conn { stream, reader: MsgReader::new(), port: p })
+        open_conn(record, port)
     }
+}
+
+/// see `Rig::open`
+pub fn open_conn(record: Option<verif_hooks::Entry>, port: u16) -> Result<Conn, String> {
+    let (fd, p) = rawhttp::bind_local(port)?;
+    if let Some(e) = record {
+        verif_hooks::insert(p, e);
+    }
+    let stream = rawhttp::connect_fd(fd, [127, 0, 0, 1], 3080)?;
+    Ok(Conn { stream, reader: MsgReader::new(), port: p })
 }
